@@ -19,6 +19,8 @@ mod evt;
 mod drift;
 #[cfg(feature = "physics")]
 mod recon;
+#[cfg(feature = "physics")]
+mod hough;
 
 fn main() {
     let args: Vec<String> = std::env::args().collect();
